@@ -198,7 +198,7 @@ impl CacheT {
 
 impl InnerT {
 // ---- RawCacheInner::clear (whole): every shard is cleared under its own lock, the listener runs after all of them
-//@region foyer-memory/src/raw.rs :: impl~^impl<E, S, I> RawCacheInner<E, S, I> where/fn clear name=clear whole=1 rules=lock-scope sub=@listener\.on_leave\(@listener.on_leave(Ghost(verif_locks), @ presub=@(?s)self\.shards\s*\.iter\(\)\s*\.map\(\|shard\| shard\.write\(\)\)\s*\.for_each\(\|mut shard\| shard\.clear\(&mut garbages\)\);@for shard in self.shards.iter() { shard.write().clear(&mut garbages); }@
+//@region foyer-memory/src/raw.rs :: impl~^impl<E, S, I> RawCacheInner<E, S, I> where/fn clear name=clear whole=1 rules=guard-for-each,lock-scope sub=@listener\.on_leave\(@listener.on_leave(Ghost(verif_locks), @
 //@head
     fn clear(&self)
 //@prologue
